@@ -32,6 +32,9 @@ def gen_tasks(tier, seed):
             tasks.append({**base, "edges": wedges, "kwargs": {"weight_type": "int"}})
             tasks.append({**base, "edges": wedges, "kwargs": {"weight_type": "float"}})
             tasks.append({**base, "edges": wedges, "kwargs": {"weight_type": "int", "optimization_options": {"optimize_with_greedy": False}}})
+            # guessed-weights shortcut (non-default), no constraints
+            tasks.append({**base, "edges": wedges, "kwargs": {"weight_type": "int", "optimization_options": {"optimize_with_guessed_weights": True, "optimize_with_greedy": False}}})
+            tasks.append({**base, "edges": wedges, "kwargs": {"weight_type": "int", "optimization_options": {"optimize_with_guessed_weights": True}}})
             # non-default lower bounds
             tasks.append({**base, "edges": wedges, "kwargs": {"weight_type": "int", "optimization_options": {"use_min_gen_set_lowerbound": True, "optimize_with_greedy": False}}})
             tasks.append({**base, "edges": wedges, "kwargs": {"weight_type": "int", "optimization_options": {"use_min_gen_set_lowerbound": True, "use_min_gen_set_lowerbound_partition_constraints": True}}})
@@ -39,9 +42,19 @@ def gen_tasks(tier, seed):
             # lower-bound options combined with ignored elements / constraints (the sub-instances must ignore the same elements)
             if len(es) > 2:
                 e1 = rng.choice(es)
-                for oo in ({"use_subgraph_scanning_lowerbound": True}, {"use_min_gen_set_lowerbound": True}, {"use_subgraph_scanning_lowerbound": True, "optimize_with_greedy": False}):
+                for oo in ({"use_subgraph_scanning_lowerbound": True}, {"use_min_gen_set_lowerbound": True}, {"use_subgraph_scanning_lowerbound": True, "optimize_with_greedy": False},
+                           {"use_min_gen_set_lowerbound": True, "use_min_gen_set_lowerbound_partition_constraints": True}):
                     tasks.append({**base, "edges": wedges, "ignored": [e1], "subgraph_window": rng.choice([2, 3]),
                                   "kwargs": {"weight_type": "int", "elements_to_ignore": [e1], "optimization_options": oo}})
+                # two ignored edges whose stale values differ from what the rest of the flow implies (+1 / -1), not leaving a source:
+                # every lower-bound option must leave them out
+                G_in = nx.DiGraph(es)
+                inner_e = [e for e in es if G_in.in_degree(e[0]) > 0]
+                for pair in ([inner_e[:2]] if len(inner_e) >= 2 else []):
+                    stale = [(u, v, (f + 1 if (u, v) == pair[0] else max(0, f - 1) if (u, v) == pair[1] else f)) for (u, v, f) in wedges]
+                    for oo in ({"use_min_gen_set_lowerbound": True, "use_min_gen_set_lowerbound_partition_constraints": True}, {"use_min_gen_set_lowerbound": True}, {}):
+                        tasks.append({**base, "edges": stale, "ignored": [list(e) for e in pair],
+                                      "kwargs": {"weight_type": "int", "elements_to_ignore": [list(e) for e in pair], "optimization_options": dict(oo)}})
                 e2 = rng.sample(es, 2)
                 tasks.append({**base, "edges": wedges, "ignored": e2, "subgraph_window": 2,
                               "kwargs": {"weight_type": "int", "elements_to_ignore": e2, "optimization_options": {"use_subgraph_scanning_lowerbound": True}}})
